@@ -321,4 +321,5 @@ def _var_combine(a, axis=None, correction=None, **kwargs):
 
 
 def _var_aggregate(a, correction=None, **kwargs):
-    return nxp.divide(a["M2"], a["n"] - correction)
+    # like NumPy, no degrees of freedom gives a division by zero (nan or inf), not a negative divisor
+    return nxp.divide(a["M2"], nxp.maximum(a["n"] - correction, 0))
